@@ -1,13 +1,20 @@
 import SJ.Proofs.Escape
 import SJ.Proofs.Hex
 import SJ.Proofs.Swar
+import SJ.Proofs.Utf8Literal
+import SJ.Proofs.Utf8Value
+import SJ.Proofs.RoundTrip
+import SJ.Props.C01
+import SJ.Props.C02
 /-!
 # C05 — String contents survive escaping and unescaping exactly  (serializer side + the two
 # self-contained pieces of the decoder: four-hex-digit decoding and the SWAR scanner)
 
 Property theorems only; helper lemmas live in `SJ/Proofs/{Escape,Hex,Swar}.lean`.
-The decode side proper (`c05_decode_spec`, `c05_roundtrip`, `c05_borrowed`, `c05_bytes_target`,
-`c05_str_source_utf8`) is stated over the byte-step parser machine and is not part of this file.
+The decode side (`c05_decode_spec`, `c05_decode_reject`, `c05_roundtrip`, `c05_str_source_utf8`, last
+section) is stated over the byte-step parser machine and obtained from parser soundness and
+completeness (C02 / C01) specialised to a single string literal; `c05_borrowed` and
+`c05_bytes_target` (typed targets) are not part of this file.
 -/
 namespace SJ.Props.C05
 open SJ
@@ -142,5 +149,134 @@ example : Model.Swar.skipToEscape [0x61, 0xff, 0x80, 0x7f, 0x20, 0x61, 0x61, 0x6
 example : Model.Swar.skipToEscape [0x61, 0x1f, 0x22] 1 true = 1 := by decide +kernel
 example : Model.Swar.skipToEscape [0x61, 0x1f, 0x22] 1 false = 2 := by decide +kernel
 example : Spec.Str.firstEscape [0x61, 0x1f, 0x22] 1 false = 2 := by decide +kernel
+
+/-! ## the decode side: a single string literal through the parser (`Model.Machine`) -/
+
+section decode
+open SJ.Spec.Grammar SJ.Spec.Denote SJ.Model.Machine SJ.Proofs.CanonM
+
+/-- **Decoding.** For a well-formed string literal (`"` items `"` with items = unescaped bytes,
+    simple escapes, `\uXXXX`), parsing it into `Value` returns `String(s)` exactly when every surrogate
+    escape is paired, the RFC 8259 §7 decoding (`decodeItems`: escapes replaced, pairs merged, raw bytes
+    copied) is `s`, and — on byte sources, which check — `s` is valid UTF-8. -/
+theorem c05_decode_spec (env : Env) (henv : env.tgt = .value) (items : List StrItem)
+    (hwf : StrWF items = true) (s : Bytes) :
+    parseTop env (strBytes items) = .ok (.str s) ↔
+      surrogatesPairedStr items = true ∧ (env.src ≠ .str → Spec.Utf8.validUtf8 s = true) ∧
+      decodeItems items = some s := by
+  constructor
+  · intro h
+    obtain ⟨t, ht, hc, _, hs, hu, _⟩ := SJ.Props.C02.c02_denotes env henv _ _ h
+    have := SJ.Proofs.Utf8.jsontext_strBytes items hwf t ht
+    subst this
+    simp only [canonM, Option.map_eq_some_iff, JV.str.injEq] at hc
+    obtain ⟨s', hd, rfl⟩ := hc
+    refine ⟨hs, fun hsrc => ?_, hd⟩
+    have := hu hsrc
+    simpa [Spec.Canon.stringsUtf8, hd] using this
+  · rintro ⟨hs, hu, hd⟩
+    obtain ⟨v, hp, hc⟩ := SJ.Props.C01.c01_complete_value env henv _ (.str items)
+      (SJ.Proofs.Utf8.jsontext_of_strBytes items hwf) (Or.inr (by simp [depth])) hs
+      (fun hsrc => by simpa [Spec.Canon.stringsUtf8, hd] using hu hsrc) rfl
+    simp only [canonM, hd, Option.map_some, Option.some.injEq] at hc
+    rw [hp, ← hc]
+
+/-- … **and the literal is rejected otherwise** (unpaired surrogate escape, or a decoded text that is
+    not UTF-8 on a byte source); in particular a string literal never parses to anything but a string. -/
+theorem c05_decode_reject (env : Env) (henv : env.tgt = .value) (items : List StrItem)
+    (hwf : StrWF items = true)
+    (hno : ∀ s, ¬ (surrogatesPairedStr items = true ∧ (env.src ≠ .str → Spec.Utf8.validUtf8 s = true) ∧
+      decodeItems items = some s)) :
+    ∃ c i, parseTop env (strBytes items) = .err c i := by
+  cases h : parseTop env (strBytes items) with
+  | err c i => exact ⟨c, i, rfl⟩
+  | ok v =>
+    exfalso
+    obtain ⟨t, ht, hc, _⟩ := SJ.Props.C02.c02_denotes env henv _ _ h
+    have := SJ.Proofs.Utf8.jsontext_strBytes items hwf t ht
+    subst this
+    simp only [canonM, Option.map_eq_some_iff] at hc
+    obtain ⟨s, _, rfl⟩ := hc
+    exact hno s ((c05_decode_spec env henv items hwf s).1 h)
+
+/-- `"é\u00e9\ud83d\ude00\n"` (raw `é`, the same as an escape, a surrogate pair, `\n`) -/
+def exItems : List StrItem :=
+  [.raw 0xc3, .raw 0xa9, .uni 0x30 0x30 0x65 0x39, .uni 0x64 0x38 0x33 0x64, .uni 0x64 0x65 0x30 0x30, .esc 0x6e]
+
+example : strBytes exItems = [0x22, 0xc3, 0xa9, 0x5c, 0x75, 0x30, 0x30, 0x65, 0x39, 0x5c, 0x75, 0x64, 0x38, 0x33, 0x64,
+    0x5c, 0x75, 0x64, 0x65, 0x30, 0x30, 0x5c, 0x6e, 0x22] := by decide +kernel
+example : parseTop ⟨{}, .slice, .value⟩ (strBytes exItems) =
+    .ok (.str [0xc3, 0xa9, 0xc3, 0xa9, 0xf0, 0x9f, 0x98, 0x80, 0x0a]) :=
+  (c05_decode_spec ⟨{}, .slice, .value⟩ rfl exItems (by decide) _).2
+    ⟨by decide, fun _ => by decide +kernel, by decide +kernel⟩
+/-- a lone leading surrogate `"\ud83d"`, and a raw continuation byte on a byte source, are rejected -/
+example : ∃ c i, parseTop ⟨{}, .str, .value⟩ (strBytes [.uni 0x64 0x38 0x33 0x64]) = .err c i :=
+  c05_decode_reject _ rfl _ (by decide) (fun s h => absurd h.1 (by decide))
+example : ∃ c i, parseTop ⟨{}, .slice, .value⟩ (strBytes [.raw 0xa9]) = .err c i :=
+  c05_decode_reject _ rfl _ (by decide) (fun s h => by
+    obtain ⟨_, hu, hd⟩ := h
+    simp only [decodeItems, Option.map_some, Option.some.injEq] at hd
+    subst hd
+    exact absurd (hu (by decide)) (by decide +kernel))
+/-- … which the `&str` source (whose input cannot contain it) would pass through unchecked -/
+example : parseTop ⟨{}, .str, .value⟩ (strBytes [.raw 0xa9]) = .ok (.str [0xa9]) := rfl
+
+theorem escapeByte_table : ∀ n : Nat, n < 256 →
+    Spec.Str.escapeByte (UInt8.ofNat n) = (Spec.Image.escItem (UInt8.ofNat n)).bytes := by
+  decide +kernel
+
+/-- the statement's literal is the grammar's spelling of the chosen items -/
+theorem escapeSpec_eq_strBytes (s : Bytes) : Spec.Str.escapeSpec s = strBytes (Spec.Image.strItems s) := by
+  have hb : ∀ b : UInt8, Spec.Str.escapeByte b = (Spec.Image.escItem b).bytes := fun b => by
+    simpa using escapeByte_table b.toNat b.toNat_lt
+  have hf : s.flatMap Spec.Str.escapeByte = (Spec.Image.strItems s).flatMap StrItem.bytes := by
+    induction s with
+    | nil => rfl
+    | cons b s ih => simp only [List.flatMap_cons, Spec.Image.strItems, List.map_cons, hb] at ih ⊢; rw [ih]
+  simp only [Spec.Str.escapeSpec, strBytes, hf]
+
+/-- **Round trip.** For every string `s` (valid UTF-8 — needed on byte sources only, which re-check),
+    parsing the escaped literal `escapeSpec s` (= what `format_escaped_str` writes: `c05_escape_spec`)
+    gives back `String(s)`: from any source, in any configuration. -/
+theorem c05_roundtrip (env : Env) (henv : env.tgt = .value) (s : Bytes)
+    (hs : env.src ≠ .str → Spec.Utf8.validUtf8 s = true) :
+    parseTop env (Spec.Str.escapeSpec s) = .ok (.str s) := by
+  rw [escapeSpec_eq_strBytes]
+  exact (c05_decode_spec env henv _ (SJ.Proofs.SerEscape.strItems_wf s) s).2
+    ⟨SJ.Proofs.RoundTrip.surrogatesPairedStr_strItems s, hs, SJ.Proofs.SerEscape.decode_strItems s⟩
+
+/-- the same for the bytes the serializer model actually writes -/
+theorem c05_roundtrip_written (env : Env) (henv : env.tgt = .value) (s : Bytes)
+    (hs : env.src ≠ .str → Spec.Utf8.validUtf8 s = true) :
+    parseTop env (Model.Escape.escapedBytes s) = .ok (.str s) := by
+  rw [c05_escape_spec]; exact c05_roundtrip env henv s hs
+
+example : parseTop ⟨{ po := true }, .str, .value⟩ (Model.Escape.escapedBytes [0x22, 0xc3, 0xa9, 0x0a]) =
+    .ok (.str [0x22, 0xc3, 0xa9, 0x0a]) := c05_roundtrip_written _ rfl _ (fun h => absurd rfl h)
+
+/-- `a"\é😀<0x1f>` → `"a\"\\é😀\u001f"` → back -/
+example : parseTop ⟨{}, .reader, .value⟩
+    (Spec.Str.escapeSpec [0x61, 0x22, 0x5c, 0xc3, 0xa9, 0xf0, 0x9f, 0x98, 0x80, 0x1f]) =
+    .ok (.str [0x61, 0x22, 0x5c, 0xc3, 0xa9, 0xf0, 0x9f, 0x98, 0x80, 0x1f]) :=
+  c05_roundtrip _ rfl _ (fun _ => by decide +kernel)
+/-- the UTF-8 hypothesis is needed on byte sources: `escapeSpec [0xff] = "\xff"` is rejected there -/
+example : (parseTop ⟨{}, .slice, .value⟩ (Spec.Str.escapeSpec [0xff])).isErr .InvalidUnicodeCodePoint 3 = true := by
+  decide +kernel
+
+/-- **`&str` source.** `StrRead` does not re-validate (`str::from_utf8_unchecked`); since its input is
+    valid UTF-8, every string it returns is: escapes are ASCII and cut the text at character
+    boundaries, `\uXXXX` and merged pairs decode to scalar values (`Proofs.Utf8.decodeItems_utf8`). For
+    strings and keys nested anywhere in a value: `c14_utf8`. -/
+theorem c05_str_source_utf8 (cfg : Cfg) (bs : Bytes) (hbs : Spec.Utf8.validUtf8 bs = true) (s : Bytes)
+    (h : parseTop ⟨cfg, .str, .value⟩ bs = .ok (.str s)) : Spec.Utf8.validUtf8 s = true := by
+  have := SJ.Proofs.Utf8.parse_stringsValid ⟨cfg, .str, .value⟩ bs _ h (fun _ => hbs)
+  simpa [JV.stringsValid] using this
+
+example : Spec.Utf8.validUtf8 [0xc3, 0xa9, 0xc3, 0xa9, 0xf0, 0x9f, 0x98, 0x80, 0x0a] = true :=
+  c05_str_source_utf8 {} (strBytes exItems) (by decide +kernel) _
+    ((c05_decode_spec ⟨{}, .str, .value⟩ rfl exItems (by decide) _).2
+      ⟨by decide, fun h => absurd rfl h, by decide +kernel⟩)
+
+end decode
 
 end SJ.Props.C05
